@@ -96,6 +96,7 @@ std::vector<Item> dump_state(const Schedule& sched, std::size_t step, const Summ
             d.n(q + "CF", c.CF(), true); d.n(q + "Kh", c.Kh(), true); d.n(q + "rw", c.rw(), true);
             d.n(q + "depth", c.depth(), true); d.n(q + "skin", c.skinFactor(), true);
             d.i(q + "sat_table", c.satTableId());
+            if (o.wpimult) d.n(q + "wpimult", c.wpimult(), true);
         }
         if (w.isMultiSegment()) {
             const auto& segs = w.getSegments();
@@ -107,6 +108,8 @@ std::vector<Item> dump_state(const Schedule& sched, std::size_t step, const Summ
                 d.n(q + "total_length", sg.totalLength(), true); d.n(q + "depth", sg.depth(), true);
                 d.n(q + "diameter", sg.internalDiameter(), true); d.n(q + "roughness", sg.roughness(), true);
                 d.n(q + "cross_area", sg.crossArea(), true); d.n(q + "volume", sg.volume(), true);
+                d.i(q + "type", static_cast<long long>(sg.segmentType()));
+                if (sg.isValve()) { d.n(q + "valve.cv", sg.valve().conFlowCoefficient(), true); d.n(q + "valve.area", sg.valve().conCrossAreaValue(), true); d.i(q + "valve.status", sg.valve().ecl_status()); }
             }
         }
         if (w.isProducer()) {
